@@ -500,7 +500,8 @@ class Cas:
             # We use binary search to find indices for the first and last annotations that are inside
             # the window of [begin, end].
             idx_begin = annotations.bisect_key_left((begin, begin))
-            idx_end = annotations.bisect_key_right((end, end))
+            # Index keys are (begin, end, id): the upper probe must also admit the keys (end, end, <any id>)
+            idx_end = annotations.bisect_key_right((end, end, float("inf")))
 
             result.extend(annotations[idx_begin:idx_end])
 
